@@ -1,5 +1,306 @@
-import HydroVerif.Model.C08
+/-
+C08 — property theorems (only). Model: `HydroVerif/Model/C08.lean`; vocabulary and loop invariants:
+`HydroVerif/Lemmas/C08.lean`.
+
+Vocabulary used in the statements (all defined in `Lemmas/C08.lean`, independent of the kernels' loops):
+* `keys l`        the distinct index values in order of first appearance (`eraseDups` of the index column);
+* `groupOf l k`   the inputs whose index is `k`, in order (`filter`);
+* `vals g`, `nmiss g`  the non-missing values / the number of missing values of a group;
+* `reduce op maxnan g` `none` (NaN) when `nmiss g > maxnan`, else `red op (vals g)` with
+  `red 0 = sum`, `red 1 = sum / length`, `red 2 = List.maximum`, `red 3 = getLast` (0 for an empty list);
+* `cell maxnan g x`    what flathomogen writes at an entry `x` of group `g`.
+All theorems hold for every ordered field `α` (ℚ, ℝ, …), every list length, every operator / `maxnan` stated.
+-/
+import HydroVerif.Lemmas.C08
+
 namespace HydroVerif.C08
-theorem stub_daysInMonth_le (y : Int) (m : Nat) : daysInMonth y m ≤ 31 := by
-  unfold daysInMonth; split <;> (try split) <;> omega
+
+section agg
+variable {α : Type} [Field α] [LinearOrder α] [IsStrictOrderedRing α]
+
+/-! ### what the specification vocabulary means -/
+
+/-- distinct index values of a non-decreasing index come out strictly increasing … -/
+theorem keys_strictly_increasing {β : Type} (l : List (Int × β))
+    (hs : (l.map Prod.fst).Pairwise (· ≤ ·)) : (keys l).Pairwise (· < ·) := by
+  unfold keys
+  generalize hn : (l.map Prod.fst).length = n
+  generalize l.map Prod.fst = xs at hs hn
+  induction n using Nat.strong_induction_on generalizing xs with
+  | _ n ih =>
+    cases xs with
+    | nil => simp
+    | cons i tl =>
+      rw [List.eraseDups_cons, List.pairwise_cons]
+      rw [List.pairwise_cons] at hs
+      constructor
+      · intro b hb
+        rw [List.mem_eraseDups, List.mem_filter] at hb
+        have h1 := hs.1 b hb.1
+        have h2 : b ≠ i := by simpa using hb.2
+        omega
+      · have hlen : (tl.filter fun b => !b == i).length < n := by
+          have := List.length_filter_le (fun b => !b == i) tl
+          simp only [List.length_cons] at hn
+          omega
+        exact ih _ hlen _ (hs.2.filter _) rfl
+
+/-- … and are exactly the index values that occur: one key per distinct index value, in order -/
+theorem mem_keys {β : Type} (l : List (Int × β)) (k : Int) : k ∈ keys l ↔ ∃ p ∈ l, p.1 = k := by
+  simp [keys]
+
+/-- the maximum operator's reduction is the greatest non-missing value -/
+theorem red_max_spec (v : List α) (hv : v ≠ []) : red 2 v ∈ v ∧ ∀ x ∈ v, x ≤ red 2 v := by
+  obtain ⟨m, hm⟩ := WithBot.ne_bot_iff_exists.mp (List.maximum_ne_bot_of_ne_nil hv)
+  have h := List.maximum_eq_coe_iff.mp hm.symm
+  have : red 2 v = m := by simp [red, ← hm]
+  rw [this]; exact h
+
+/-- the tail operator's reduction is the last non-missing value -/
+theorem red_last_spec (v : List α) (hv : v ≠ []) : red 3 v = v.getLast hv := by
+  simp [red, List.getLast?_eq_getLast_of_ne_nil hv]
+
+/-- the mean operator's reduction times the number of non-missing values is their sum -/
+theorem red_mean_spec (v : List α) (hv : v ≠ []) : red 1 v * (v.length : α) = v.sum := by
+  have : (v.length : α) ≠ 0 := by
+    have : 0 < v.length := List.length_pos_iff.mpr hv
+    exact_mod_cast this.ne'
+  simp [red, hv]
+  field_simp
+
+theorem red_sum_spec (v : List α) : red 0 v = v.sum := by simp [red]
+
+/-! ### aggregate -/
+
+/-- **aggregate reduces by group**: for a non-decreasing index, every operator 0..3 and every `maxnan`,
+the result is one value per distinct index value, in order, equal to the reduction of the non-missing
+inputs of that group, or NaN when the group holds more than `maxnan` missing values -/
+theorem aggregate_spec (op maxnan : Int) (h0 : 0 ≤ op) (h3 : op ≤ 3) (l : List (Int × Option α))
+    (hne : l ≠ []) (hs : (l.map Prod.fst).Pairwise (· ≤ ·)) :
+    aggregate op maxnan l = .ok ((keys l).map fun k => reduce op maxnan (groupOf l k)) := by
+  rw [aggregate_eq_groups op maxnan l hne hs, groups_eq l hs, List.map_map]
+  congr 1
+  apply List.map_congr_left
+  intro k _
+  simp [flush_accOf op maxnan h0 h3]
+
+/-- an aggregation index that decreases anywhere is rejected with the decreasing-index error … -/
+theorem aggregate_rejects_decreasing (op maxnan : Int) (l : List (Int × Option α)) (hne : l ≠ [])
+    (hs : ¬ (l.map Prod.fst).Pairwise (· ≤ ·)) :
+    aggregate op maxnan l = .error .decreasingIndex :=
+  aggregate_err op maxnan l hne hs
+
+/-- … and nothing else is: on length ≥ 1 the call succeeds iff the index is non-decreasing
+(in particular the `count >= nval` guard of the kernel can never fire) -/
+theorem aggregate_ok_iff (op maxnan : Int) (l : List (Int × Option α)) (hne : l ≠ []) :
+    (∃ out, aggregate op maxnan l = .ok out) ↔ (l.map Prod.fst).Pairwise (· ≤ ·) := by
+  constructor
+  · rintro ⟨out, h⟩
+    by_contra hs
+    rw [aggregate_err op maxnan l hne hs] at h
+    cases h
+  · intro hs
+    exact ⟨_, aggregate_eq_groups op maxnan l hne hs⟩
+
+/-- "decreases anywhere" = some element is smaller than its predecessor -/
+theorem not_sorted_iff_adjacent_decrease (xs : List Int) :
+    ¬ xs.Pairwise (· ≤ ·) ↔ ∃ i, ∃ h : i + 1 < xs.length, xs[i + 1] < xs[i] := by
+  induction xs with
+  | nil => simp
+  | cons a tl ih =>
+    cases tl with
+    | nil => simp
+    | cons b r =>
+      have hpw : (a :: b :: r).Pairwise (· ≤ ·) ↔ a ≤ b ∧ (b :: r).Pairwise (· ≤ ·) := by
+        rw [List.pairwise_cons]
+        constructor
+        · rintro ⟨h1, h2⟩; exact ⟨h1 b (List.mem_cons_self ..), h2⟩
+        · rintro ⟨h1, h2⟩
+          refine ⟨?_, h2⟩
+          intro c hc
+          rcases List.mem_cons.mp hc with rfl | hc
+          · exact h1
+          · exact le_trans h1 ((List.pairwise_cons.mp h2).1 c hc)
+      rw [hpw, not_and_or, ih]
+      constructor
+      · rintro (h | ⟨i, hi, hlt⟩)
+        · exact ⟨0, by simp, by simpa using h⟩
+        · exact ⟨i + 1, by simpa using hi, by simpa using hlt⟩
+      · rintro ⟨i, hi, hlt⟩
+        cases i with
+        | zero => left; simpa using hlt
+        | succ j => right; exact ⟨j, by simpa using hi, by simpa using hlt⟩
+
+/-- the number of outputs is the number of distinct index values (any operator value, any `maxnan`) -/
+theorem aggregate_length (op maxnan : Int) (l : List (Int × Option α)) (out : List (Option α))
+    (hs : (l.map Prod.fst).Pairwise (· ≤ ·)) (h : aggregate op maxnan l = .ok out) :
+    out.length = (keys l).length := by
+  have hne : l ≠ [] := by rintro rfl; simp [aggregate] at h
+  rw [aggregate_eq_groups op maxnan l hne hs, groups_eq l hs] at h
+  cases h
+  simp
+
+/-- the groups partition the input: concatenated in key order they give back the input column -/
+theorem groups_partition (l : List (Int × Option α)) (hs : (l.map Prod.fst).Pairwise (· ≤ ·)) :
+    (keys l).flatMap (groupOf l) = l.map Prod.snd := by
+  have := groups_flatten l
+  rw [groups_eq l hs] at this
+  simpa [List.flatMap_map] using this
+
+/-- **totals are conserved**: when no group is flushed to NaN the aggregated sums add up to the sum of
+the non-missing inputs -/
+theorem aggregate_sum_conserved (maxnan : Int) (l : List (Int × Option α)) (out : List (Option α))
+    (hs : (l.map Prod.fst).Pairwise (· ≤ ·)) (h : aggregate 0 maxnan l = .ok out)
+    (hall : ∀ o ∈ out, o ≠ none) : (vals out).sum = (vals (l.map Prod.snd)).sum := by
+  have hne : l ≠ [] := by rintro rfl; simp [aggregate] at h
+  rw [aggregate_spec 0 maxnan le_rfl (by norm_num) l hne hs] at h
+  cases h
+  rw [← groups_partition l hs, vals_flatMap, sum_flatMap]
+  congr 1
+  have hk : ∀ k ∈ keys l, reduce 0 maxnan (groupOf l k) = some ((vals (groupOf l k)).sum) := by
+    intro k hk
+    have := hall (reduce 0 maxnan (groupOf l k)) (List.mem_map.mpr ⟨k, hk, rfl⟩)
+    unfold reduce at this ⊢
+    split
+    · rename_i hlt; simp [hlt] at this
+    · simp [red]
+  generalize keys l = ks at hk
+  induction ks with
+  | nil => simp [vals]
+  | cons k t ih =>
+    have h1 := hk k (List.mem_cons_self ..)
+    have h2 := ih fun k' hk' => hk k' (List.mem_cons_of_mem _ hk')
+    simp only [List.map_cons, vals, List.filterMap_cons, h1, id] at h2 ⊢
+    rw [h2]
+
+/-- no group is flushed once `maxnan` is at least the total number of missing inputs -/
+theorem aggregate_sum_conserved_of_maxnan_ge (maxnan : Int) (l : List (Int × Option α))
+    (hne : l ≠ []) (hs : (l.map Prod.fst).Pairwise (· ≤ ·))
+    (hm : (nmiss (l.map Prod.snd) : Int) ≤ maxnan) :
+    ∃ out, aggregate 0 maxnan l = .ok out ∧ (∀ o ∈ out, o ≠ none) ∧
+      (vals out).sum = (vals (l.map Prod.snd)).sum := by
+  have h := aggregate_spec 0 maxnan le_rfl (by norm_num) l hne hs
+  refine ⟨_, h, ?_, ?_⟩
+  · intro o ho
+    obtain ⟨k, _, rfl⟩ := List.mem_map.mp ho
+    have hsub : (groupOf l k).Sublist (l.map Prod.snd) := by
+      unfold groupOf
+      exact (List.filter_sublist).map _
+    have hle : nmiss (groupOf l k) ≤ nmiss (l.map Prod.snd) := hsub.countP_le
+    have : ¬ maxnan < (nmiss (groupOf l k) : Int) := by omega
+    simp [reduce, this]
+  · apply aggregate_sum_conserved maxnan l _ hs h
+    intro o ho
+    obtain ⟨k, _, rfl⟩ := List.mem_map.mp ho
+    have hsub : (groupOf l k).Sublist (l.map Prod.snd) := by
+      unfold groupOf
+      exact (List.filter_sublist).map _
+    have hle : nmiss (groupOf l k) ≤ nmiss (l.map Prod.snd) := hsub.countP_le
+    have : ¬ maxnan < (nmiss (groupOf l k) : Int) := by omega
+    simp [reduce, this]
+
+/-! ### flathomogen -/
+
+/-- **flathomogen**: for a non-decreasing index, every entry is rewritten from its own group only —
+missing stays missing, a non-missing entry becomes the mean of the non-missing values of its group
+(NaN when the group holds more than `maxnan` missing values) -/
+theorem flathomogen_spec (maxnan : Int) (l : List (Int × Option α)) (hne : l ≠ [])
+    (hs : (l.map Prod.fst).Pairwise (· ≤ ·)) :
+    flathomogen maxnan l = .ok (l.map fun p => cell maxnan (groupOf l p.1) p.2) := by
+  rw [flathomogen_eq_groups maxnan l hne hs]
+  congr 1
+  have hl := groups_keyed l
+  have hmap := congrArg (List.map fun p : Int × Option α => cell maxnan (groupOf l p.1) p.2) hl
+  rw [← hmap, groups_eq l hs]
+  simp only [List.flatMap_map, List.map_flatMap, List.map_map, hcells_eq]
+  rfl
+
+theorem flathomogen_rejects_decreasing (maxnan : Int) (l : List (Int × Option α)) (hne : l ≠ [])
+    (hs : ¬ (l.map Prod.fst).Pairwise (· ≤ ·)) :
+    flathomogen maxnan l = .error .decreasingIndex :=
+  flathomogen_err maxnan l hne hs
+
+theorem flathomogen_ok_iff (maxnan : Int) (l : List (Int × Option α)) (hne : l ≠ []) :
+    (∃ out, flathomogen maxnan l = .ok out) ↔ (l.map Prod.fst).Pairwise (· ≤ ·) := by
+  constructor
+  · rintro ⟨out, h⟩
+    by_contra hs
+    rw [flathomogen_err maxnan l hne hs] at h
+    cases h
+  · intro hs
+    exact ⟨_, flathomogen_eq_groups maxnan l hne hs⟩
+
+/-- same length; missing entries stay missing; within the NaN budget non-missing entries become the group mean -/
+theorem flathomogen_pointwise (maxnan : Int) (l : List (Int × Option α)) (out : List (Option α))
+    (hs : (l.map Prod.fst).Pairwise (· ≤ ·)) (h : flathomogen maxnan l = .ok out) :
+    out.length = l.length ∧
+    ∀ (i : Nat) (hi : i < l.length) (ho : i < out.length),
+      (l[i].2 = none → out[i] = none) ∧
+      (∀ v, l[i].2 = some v → (nmiss (groupOf l l[i].1) : Int) ≤ maxnan →
+        out[i] = some ((vals (groupOf l l[i].1)).sum / ((vals (groupOf l l[i].1)).length : α))) := by
+  have hne : l ≠ [] := by rintro rfl; simp [flathomogen] at h
+  rw [flathomogen_spec maxnan l hne hs] at h
+  cases h
+  refine ⟨by simp, ?_⟩
+  intro i hi ho
+  simp only [List.getElem_map]
+  constructor
+  · intro hx; simp [cell, hx]
+  · intro v hx hm
+    have : ¬ maxnan < (nmiss (groupOf l l[i].1) : Int) := by omega
+    simp [cell, hx, this]
+
+/-- **flathomogen preserves each group's total** (groups within the NaN budget): the non-missing outputs
+of a group add up to the non-missing inputs of that group -/
+theorem flathomogen_group_total (maxnan : Int) (l : List (Int × Option α)) (out : List (Option α))
+    (hs : (l.map Prod.fst).Pairwise (· ≤ ·)) (h : flathomogen maxnan l = .ok out) (k : Int)
+    (hm : (nmiss (groupOf l k) : Int) ≤ maxnan) :
+    (vals (groupOf ((l.map Prod.fst).zip out) k)).sum = (vals (groupOf l k)).sum := by
+  have hne : l ≠ [] := by rintro rfl; simp [flathomogen] at h
+  rw [flathomogen_spec maxnan l hne hs] at h
+  cases h
+  have hzip : (l.map Prod.fst).zip (l.map fun p => cell maxnan (groupOf l p.1) p.2) =
+      l.map fun p => (p.1, cell maxnan (groupOf l p.1) p.2) := by
+    rw [List.zip_map']
+  have hgrp : groupOf (l.map fun p => (p.1, cell maxnan (groupOf l p.1) p.2)) k =
+      (groupOf l k).map (cell maxnan (groupOf l k)) := by
+    unfold groupOf
+    rw [List.filter_map, List.map_map, List.map_map]
+    apply List.map_congr_left
+    intro p hp
+    have : p.1 = k := by simpa using (List.mem_filter.mp hp).2
+    simp [this]
+  rw [hzip, hgrp]
+  have hnot : ¬ maxnan < (nmiss (groupOf l k) : Int) := by omega
+  generalize hg : groupOf l k = g at hnot
+  -- the non-missing outputs are `length (vals g)` copies of the mean
+  have hv : vals (g.map (cell maxnan g)) =
+      List.replicate (vals g).length ((vals g).sum / ((vals g).length : α)) := by
+    generalize (vals g).sum / ((vals g).length : α) = m at *
+    have : ∀ g' : List (Option α), vals (g'.map fun x => match x with | none => none | some _ => some m) =
+        List.replicate (vals g').length m := by
+      intro g'
+      induction g' with
+      | nil => simp [vals]
+      | cons x t ih =>
+        cases x with
+        | none => simpa [vals] using ih
+        | some v =>
+          simp only [vals, List.map_cons, List.filterMap_cons, id, List.length_cons,
+            List.replicate_succ] at ih ⊢
+          rw [ih]
+    have hc : (cell maxnan g) = fun x => match x with | none => none | some _ => some m := by
+      funext x
+      cases x <;> simp [cell, hnot]
+      assumption
+    rw [hc, this]
+  rw [hv, List.sum_replicate, nsmul_eq_mul]
+  by_cases hz : (vals g).length = 0
+  · have : vals g = [] := List.length_eq_zero_iff.mp hz
+    simp [this]
+  · have : ((vals g).length : α) ≠ 0 := by exact_mod_cast hz
+    field_simp
+
+end agg
+
 end HydroVerif.C08
